@@ -1,5 +1,5 @@
 PROP = {
-    "regen_files": ["GenGuards.v"],
+    "regen_files": ["GenGuards.v", "GenCollect.v"],
     "num": 7,
     "runs": [{"tag": "c07", "bin": "c07"},
              # the same scripts with ZERO-SIZED drop-tracked items (a Vec of them has capacity usize::MAX and
@@ -10,7 +10,7 @@ PROP = {
     "nontrivial": lambda case, obs: case.split()[1] != "0" and len(case.split()) > 4,
     "manifest": {
         "design_ref": "DESIGN.md section 7, C07",
-        "text": "Theorems in Coq over the hub model of try_from_iter/from_iter and the boxed forms with the source as an arbitrary script (any, possibly lying, size hint; not necessarily fused; may panic), for every N: Ok iff the hint does not rule N out and exactly N items are followed by the end, element i = i-th item; truthful hints accept; otherwise LengthError; at most N+1 polls, consecutive, never after None; every pulled item is returned or dropped exactly once. Tie to the code: extracted model vs the real functions over scripted iterators of drop-tracked items (exhaustive small scope + seeded up to N=1025), with direct oracles for polls-after-None and item accounting.",
+        "text": "Theorems in Coq over the hub model of try_from_iter/from_iter and the boxed forms with the source as an arbitrary script (any, possibly lying, size hint; not necessarily fused; may panic), for every N: Ok iff the hint does not rule N out and exactly N items are followed by the end, element i = i-th item; truthful hints accept; otherwise LengthError; at most N+1 polls, consecutive, never after None; every pulled item is returned or dropped exactly once. Tie to the code: the bodies of IntrusiveArrayBuilder::extend, try_from_iter and try_boxed_from_iter are regenerated from the source on every run (coq/gen/GenCollect.v: size-hint arms, the fill with its zip order and closure statements, the short-circuit Err condition, the ending) and proved, over an arbitrary scripted source, to BE the model's functions -- outcome, destructor runs, number of next() calls (coq/theories/Collect.v, CollectTie.v, C07_source_*); extracted model vs the real functions over scripted iterators of drop-tracked items (exhaustive small scope + seeded up to N=1025), with direct oracles for polls-after-None and item accounting.",
         "technique": "machine-checked proof in Coq (all N, all source scripts) + extracted-model vs implementation differential correspondence with scripted sources",
     },
 }
